@@ -259,7 +259,7 @@ func runC05(c C05Case, cs *kit.CaseStats) error {
 		where := fmt.Sprintf("step %d", si)
 		switch {
 		case st.Submit != nil:
-			_, blocks, states, validated := tr.ResolveBatch(*st.Submit, known)
+			_, blocks, states, validated := tr.ResolveBatch(*st.Submit, node.ValidatedParent)
 			if len(blocks) == 0 {
 				continue
 			}
